@@ -40,6 +40,67 @@ def bit_probes(rng, n):
     return out
 
 
+def optimizer_reset_probe(chk):
+    """Optimizer::reset_gradients() returns EVERY registered parameter to zero, however the parameters were registered:
+    one by one, through a model, through a model that was registered again after it grew (new parameters, new submodels),
+    through two optimizers.  Implementation alone (harness h_optim): gradients are preset, reset_gradients() is called and
+    every gradient is read back; then the usual accumulate-twice pattern (preset g, reset, preset again) is checked."""
+    from props.optimlib import xs
+    exe = build.build_harness("h_optim")
+    rng = chk.rng
+    for _ in range(6 if chk.tier == "quick" else 80):
+        n = rng.randint(2, 5)
+        lines = ["mode exact", "device naive", "opt 0 %s" % rng.choice(["SGD", "MomentumSGD", "Adam"])]
+        for p in range(n):
+            lines.append("param %d 2 %s" % (p, xs([float(rng.randint(-3, 3)), float(rng.randint(-3, 3))])))
+        lines += ["model 0", "model 1", "msub 0 sub 1"]
+        order = list(range(n))
+        rng.shuffle(order)
+        registered = set()
+        for k, p in enumerate(order):
+            how = rng.choice(["direct", "root", "sub"])
+            if how == "direct":
+                lines.append("add 0 %d" % p)
+            else:
+                lines.append("madd %d w%d %d" % (0 if how == "root" else 1, p, p))
+                # the model is registered again after every growth
+                lines.append("oaddm 0 0")
+            registered.add(p)
+            if rng.random() < 0.5:
+                for q in sorted(registered):
+                    lines.append("grad %d %s" % (q, xs([float(rng.randint(1, 5)), float(rng.randint(-5, -1))])))
+                lines.append("reset 0")
+                for q in sorted(registered):
+                    lines.append("pstate %d" % q)
+        for q in range(n):
+            lines.append("grad %d %s" % (q, xs([3.0, -7.0])))
+        lines.append("reset 0")
+        for q in range(n):
+            lines.append("pstate %d" % q)
+        impl, reports = vrun.run_impl(exe, lines, stateful=True, timeout=120)
+        chk.traces += 1
+        after_reset = False
+        for i, (l, o) in enumerate(zip(lines, impl)):
+            chk.count(l, o, o.startswith("ok"))
+            w = l.split()
+            if w[0] == "reset":
+                after_reset = True
+            elif w[0] != "pstate":
+                after_reset = False
+            bad = None
+            if o.startswith("crash") or o.startswith("err"):
+                bad = "`%s` answers `%s`" % (l, o[:200])
+            elif w[0] == "pstate" and after_reset:
+                g = [t for t in o.split() if t.startswith("g=")]
+                if not g or any(x not in ("x00000000",) for x in g[0][2:].split(",")):
+                    bad = "after reset_gradients() the gradient of registered parameter %s is `%s`" % (w[1], g[0] if g else o[:100])
+            if bad:
+                chk.report("optimizer:reset-gradients:%s" % ("not-zero" if "after reset" in bad else "error"),
+                           "%s (a parameter registered with the optimizer through `%s`)" % (bad, "; ".join(x for x in lines[:i] if x.split()[0] in ("add", "madd", "oaddm", "msub"))[:300]),
+                           {"family": "optim", "harness": "h_optim", "stateful": True, "lines": lines[: i + 1], "model_family": None, "observed": o[:600]})
+                break
+
+
 def run(chk):
     chk.rule = ("as C05 (stateful histories of the graph family on the real Graph and on the Lean model), with gradient probe blocks "
                 "(gradients of all parameters before and after each backward, repeated backward on the same node, reset_gradient, arbitrary "
@@ -86,6 +147,7 @@ def run(chk):
             if impl[6] != zero or impl[8] != one:
                 chk.report("graph:reset-gradient-not-zero", "gradient preset to bits %s: after reset_gradient() it is `%s` (want all zero bits), after reset + backward on the parameter node `%s` (want ones)" % (",".join(bits), impl[6], impl[8]),
                            {"family": "graph", "harness": "h_graph", "harness_args": [dev], "stateful": True, "lines": lines, "observed": impl[-3:]})
+    optimizer_reset_probe(chk)
     finish_obligations(chk)
     chk.stated_not_proved += ["Primitiv.C06.blocked_paths_untouched_full (false on this tree: its negation is proved with a witness in Props/Findings/C06Blocked.lean; known finding blocked-path-zero-add)"]
     chk.trusted += ["modelled, not verified: Graph::backward is hand-modelled in Lean (Model/Graph.lean) and tied to graph.cc by the correspondence run",
